@@ -59,7 +59,18 @@ func builtinHistories(thorough bool) []*History {
 			add("queued-invalid-never-written", []BlockSpec{x1, blk(3, 300, "rand")}, reopen(o), op("add", 0), op("add", 1), op("invalid", 0), op("idle", 0), op("get", 0),
 				op("close", 0), reopen(o), op("get", 0), op("get", 1), op("close", 0))
 		}
-		add("unknown-hash", abc, reopen(o), op("get", -1), opf("len", -1, true), op("trusted", -1), op("invalid", -1), op("idle", 0), op("close", 0))
+		// the read entry points in every pairing (BlockGet / BlockGetExt / the one-pass BlockGetInternal(hash, true)), on a block
+		// that is queued (the cache holds the only copy), written and cached, written and not cached (cache of one entry),
+		// and after a restart: whoever reads first, the next reader gets the stored bytes
+		for _, r1 := range []string{"get", "getext", "getnc"} {
+			for _, r2 := range []string{"get", "getext", "getnc"} {
+				o1 := Opts{MaxCached: 1, Compress: c}
+				add("read-pairs-"+r1+"-"+r2, abc, reopen(o1), op("add", 0), op("add", 1), op(r1, 0), op(r2, 0), op(r1, 1), op("idle", 0), op(r1, 1), op(r2, 1),
+					op(r1, 0), op(r2, 0), op("add", 2), op(r1, 2), op(r2, 2), opf("len", 2, true), op("add", 3), op(r2, 3), op(r1, 3), op("close", 0),
+					reopen(o1), op(r1, 0), op(r2, 0), op(r2, 2), op(r1, 2), op("close", 0))
+			}
+		}
+		add("unknown-hash", abc, reopen(o), op("get", -1), op("getnc", -1), op("getext", -1), opf("len", -1, true), op("trusted", -1), op("invalid", -1), op("idle", 0), op("close", 0))
 		// cache of one entry, unwritten blocks are never evicted
 		o1 := Opts{MaxCached: 1, Compress: c}
 		add("cache-1", abc, reopen(o1), op("add", 0), op("add", 1), op("add", 2), op("get", 0), op("idle", 0), op("get", 1), op("get", 0), op("get", 2), op("add", 3), op("get", 0), op("close", 0))
